@@ -477,9 +477,16 @@ func driveMain(args []string) {
 		aggs = append(aggs, agg)
 		harness = append(harness, agg.HarnessErr...)
 		fmt.Printf("zsim: batch %-22s runs=%d steps=%d checks=%d violations=%d wall=%.1fs\n", b.Label, agg.Runs, agg.Steps, agg.Checks, len(agg.Violations), agg.WallS)
-		if b.Special == "" && !b.Race && (b.Bin == "" || b.Mode == "clock") && len(agg.Hashes) > 0 {
+		if b.Special == "" && !b.Race && (b.Bin == "" || b.Mode == "clock" || b.Mode == "panicinj") && len(agg.Hashes) > 0 {
 			if bad := recheckDeterminism(agg, *tier); len(bad) > 0 {
-				harness = append(harness, "harness nondeterministic: "+strings.Join(bad, "; "))
+				if b.Mode == "panicinj" {
+					// the injection point is drawn from the statements the call executes; where Go map iteration
+					// inside the code under test decides which statements run, a re-run may pick another one
+					agg.Counters.add("recheck_other_injection_point", len(bad))
+					fmt.Printf("zsim: note: %d re-run(s) of batch %s chose another injection point (map iteration in the code under test)\n", len(bad), b.Label)
+				} else {
+					harness = append(harness, "harness nondeterministic: "+strings.Join(bad, "; "))
+				}
 			}
 		}
 	}
